@@ -32,7 +32,7 @@ theorem select_mem_iff (ρ : Env) (q : Query) (qs : List Query) (nodes : List No
   cases h
   exact mem_chains _ _ _ _ _
 
-example : selectNodes (fun _ _ => .ret true) [.name (.lit (.str ['a'])), .name .any]
+example : selectNodes ⟨fun _ _ => .ret true, id⟩ [.name (.lit (.str ['a'])), .name .any]
     [top 0 (.node (.str ['a']) [] [.node (.str ['b']) [] [], .node .none [] []])] false
     = some [⟨[.node (.str ['a']) [] [.node (.str ['b']) [] [], .node .none [] []]], .node (.str ['b']) [] [], [0, 0]⟩,
             ⟨[.node (.str ['a']) [] [.node (.str ['b']) [] [], .node .none [] []]], .node .none [] [], [0, 1]⟩] := by
@@ -400,14 +400,15 @@ theorem compiled_eq_interp_of_returns (ρ : Env) (b : BExp) (v : Val) (h : b.eva
   | raise => exact absurd hr h
   | ret r => simp [BExp.compiled, hr, evalC_ret_interp ρ b v r hr]
 
-/-- the case-insensitive variants compare lower-cased strings and pass non-strings through
-unchanged, in BOTH forms (`leafOut` is shared by `interp` and `evalC`) — so `ieq` never raises -/
+/-- the case-insensitive variants apply ONE lower-casing function — `ρ.lower`, whatever it is: Unicode
+lower-casing is a parameter, not modelled — to the tested string and to the stored argument, and pass
+non-strings through unchanged, in BOTH forms (`leafOut` is shared by `interp` and `evalC`) — so `ieq` never raises -/
 theorem caseless_semantics (ρ : Env) (op : Op) (arg : Str) :
-    (∀ s, leafOut ρ (.primI op arg) (.str s) = primEval op (.str (lower s)) (.str (lower arg))) ∧
-    (∀ i, leafOut ρ (.primI op arg) (.int i) = primEval op (.int i) (.str (lower arg))) ∧
-    leafOut ρ (.primI op arg) .none = primEval op .none (.str (lower arg)) ∧
+    (∀ s, leafOut ρ (.primI op arg) (.str s) = primEval op (.str (ρ.lower s)) (.str (ρ.lower arg))) ∧
+    (∀ i, leafOut ρ (.primI op arg) (.int i) = primEval op (.int i) (.str (ρ.lower arg))) ∧
+    leafOut ρ (.primI op arg) .none = primEval op .none (.str (ρ.lower arg)) ∧
     (∀ v, (BExp.primI .eq arg).nonRaising ρ v = true) ∧
-    (∀ s, (BExp.primI .eq arg).compiled ρ (.str s) = decide (lower s = lower arg)) := by
+    (∀ s, (BExp.primI .eq arg).compiled ρ (.str s) = decide (ρ.lower s = ρ.lower arg)) := by
   refine ⟨fun _ => rfl, fun _ => rfl, rfl, ?_, ?_⟩
   · intro v; cases v <;> simp [BExp.nonRaising, leafOut, lowerVal, primEval]
   · intro s; simp [BExp.compiled, BExp.evalC, leafOut, lowerVal, primEval]
@@ -457,10 +458,10 @@ example : leafOut wEnv (.prim .startswith (.str ['x'])) (.int 5) = .raise ∧
 make the node fail the query level, so it is in no result of that level. -/
 theorem raising_not_matching (ρ : Env) (e : Node) :
     (∀ b, b.evalC ρ e.name = .raise → (Query.name (.bexp b)).eval ρ e = false) ∧
-    (∀ k, ρ k e.name = .raise → (Query.name (.fn k)).eval ρ e = false) ∧
+    (∀ k, ρ.call k e.name = .raise → (Query.name (.fn k)).eval ρ e = false) ∧
     (∀ n b, (∀ a ∈ e.attrs, b.evalC ρ a = .raise ∨ b.evalC ρ a = .ret false) →
         (Query.tuple n [.bexp b]).eval ρ e = false) ∧
-    (∀ n k, (∀ a ∈ e.attrs, ρ k a = .raise ∨ ρ k a = .ret false) →
+    (∀ n k, (∀ a ∈ e.attrs, ρ.call k a = .raise ∨ ρ.call k a = .ret false) →
         (Query.tuple n [.fn k]).eval ρ e = false) := by
   refine ⟨?_, ?_, ?_, ?_⟩
   · intro b h; simp [Query.eval, NameQ.eval, BExp.compiled, h]
